@@ -38,10 +38,12 @@ func init() {
 	register(&Rule{ID: "R16.4", Title: "Subscription fields built by getSubscription", Floor: 4, Run: r16_4})
 	register(&Rule{ID: "R16.5", Title: "Last-Event-Id parsing in Upgrade", Floor: 2, Run: r16_5})
 	register(&Rule{ID: "R16.6", Title: "flusher unwrapping order and delegation", Floor: 3, Run: r16_6})
+	register(&Rule{ID: "R16.7", Title: "Server wrappers initialise the provider and forward to it on every path", Floor: 4, Run: r16_7})
 	register(&Rule{ID: "R05.1", Title: "client/server wire-contract constants agree", Floor: 3, Run: r05_1})
 	register(&Rule{ID: "R20.1", Title: "buffer limit wiring into bufio.Scanner.Buffer", Floor: 4, Run: r20_1})
 	register(&Rule{ID: "R20.2", Title: "split function emits a token only for a complete event or at EOF", Floor: 2, Run: r20_2})
 	register(&Rule{ID: "R20.3", Title: "token is data[start:advance]; advance is returned", Floor: 1, Run: r20_3})
+	register(&Rule{ID: "R20.5", Title: "the response body is read only by the bounded parser", Floor: 1, Run: r20_5})
 	register(&Rule{ID: "R20.4", Title: "more data is requested only when the scan reached the end of the buffer", Floor: 2, Run: r20_4})
 }
 
@@ -211,7 +213,7 @@ func globalStringSliceInit(P *Program, g *ssa.Global) ([]string, bool) {
 		if fn == init {
 			continue
 		}
-		eachInstrDeep(fn, func(in ssa.Instruction) {
+		eachInstr(fn, func(in ssa.Instruction) {
 			if st, isSt := in.(*ssa.Store); isSt {
 				if st.Addr == ssa.Value(g) {
 					ok = false
@@ -243,15 +245,30 @@ func r16_2(c *Ctx) {
 			}
 			var errV ssa.Value
 			sig := call.Call.Signature()
-			switch sig.Results().Len() {
-			case 1:
-				if sig.Results().At(0).Type().String() == "error" {
-					errV = call
+			ei := -1
+			for i := 0; i < sig.Results().Len(); i++ {
+				if sig.Results().At(i).Type().String() == "error" {
+					ei = i
 				}
-			case 2:
-				if sig.Results().At(1).Type().String() == "error" {
+			}
+			ri := -1
+			for i := 0; i < fn.Signature.Results().Len(); i++ {
+				if fn.Signature.Results().At(i).Type().String() == "error" {
+					ri = i
+				}
+			}
+			if ri < 0 {
+				c.bad(fnLabel(fn)+":error-result", P.pos(fn.Pos()), fnLabel(fn)+" has no error result: write/flush errors cannot reach the caller")
+				return
+			}
+			switch {
+			case ei < 0:
+			case sig.Results().Len() == 1:
+				errV = call
+			default:
+				{
 					for _, r := range *call.Referrers() {
-						if e, ok := r.(*ssa.Extract); ok && e.Index == 1 {
+						if e, ok := r.(*ssa.Extract); ok && e.Index == ei {
 							errV = e
 						}
 					}
@@ -267,7 +284,7 @@ func r16_2(c *Ctx) {
 			name := fnLabel(fn) + ":error-of(" + shortCallee(call) + ")"
 			returned := false
 			for _, ret := range returnsOf(fn) {
-				for _, s := range sources(ret.Results[0]) {
+				for _, s := range sources(ret.Results[ri]) {
 					if s == errV {
 						returned = true
 					}
@@ -279,7 +296,10 @@ func r16_2(c *Ctx) {
 				if s, ok := nilEdge(ifi, func(v ssa.Value) bool { return v == errV }); ok {
 					forward([]startPoint{atEdge(ifi.Block(), 1-s)}, func(x ssa.Instruction) searchAction {
 						if r, ok := x.(*ssa.Return); ok {
-							for _, sv := range sources(r.Results[0]) {
+							if r.Parent() != fn || len(r.Results) <= ri {
+								return cont
+							}
+							for _, sv := range sources(r.Results[ri]) {
 								if sv != errV {
 									leak = true
 								}
@@ -345,17 +365,13 @@ func r16_3(c *Ctx) {
 		c.bad(name+":shape", P.pos(fn.Pos()), "ServeHTTP does not (Upgrade, build the subscription with OnSession's verdict, provider.Subscribe)")
 		return
 	}
-	upErr := func(v ssa.Value) bool {
-		e, ok := v.(*ssa.Extract)
-		return ok && e.Index == 1 && e.Tuple == ssa.Value(up)
-	}
-	upSess := func(v ssa.Value) bool {
-		e, ok := v.(*ssa.Extract)
-		return ok && e.Index == 0 && e.Tuple == ssa.Value(up)
-	}
+	upErr := func(v ssa.Value) bool { return carriesExtract(v, up, 1) }
+	upSess := func(v ssa.Value) bool { return carriesExtract(v, up, 0) }
 	gsOK := func(v ssa.Value) bool {
-		e, ok := v.(*ssa.Extract)
-		return ok && e.Index == 1 && e.Tuple == ssa.Value(gs)
+		if gs != nil {
+			return carriesExtract(v, gs, 1)
+		}
+		return carriesExtract(v, on, 1)
 	}
 	is500 := func(call *ssa.Call) bool {
 		k, ok := constInt(call.Call.Args[2])
@@ -427,6 +443,16 @@ func r16_3(c *Ctx) {
 			}
 		}
 		_, provOK := isFieldLoad(sub.Common().Value, "Server", "provider")
+		if !provOK {
+			// through a local or an inlined getter
+			src := sources(sub.Common().Value)
+			provOK = len(src) > 0
+			for _, sv := range src {
+				if _, ok := isFieldLoad(sv, "Server", "provider"); !ok {
+					provOK = false
+				}
+			}
+		}
 		accepted := guardedByBool(fn, sub.Block(), gsOK, true) || (gs == nil && !guardedReach(fn, gsOK, false, sub))
 		c.check(ctxOK && subOK && provOK && accepted, name+":subscribe-args", P.ipos(sub), "provider.Subscribe(r.Context(), the subscription) for an accepted session", "Subscribe is not called with the request's context and the subscription built for this session (or for a rejected session)")
 	}
@@ -443,6 +469,39 @@ func r16_3(c *Ctx) {
 			}
 		}
 		c.check(got, name+":subscribe-error", P.ipos(sub), "a Subscribe error is answered with http.Error(w, err.Error(), 500)", "a Subscribe error is not answered with http.Error(w, err.Error(), 500)")
+		// ... on every path: no return is reachable from the error's non-nil edge without passing a 500 answer
+		for _, which := range []struct {
+			label string
+			isV   func(ssa.Value) bool
+			at    ssa.Instruction
+		}{{"subscribe", func(v ssa.Value) bool { return v == ssa.Value(sv) }, sub}, {"upgrade", upErr, up}} {
+			skips, edges := false, 0
+			var where ssa.Instruction
+			for _, ifi := range ifsIn(fn) {
+				sn, ok := nilEdge(ifi, which.isV)
+				if !ok {
+					continue
+				}
+				edges++
+				forward([]startPoint{atEdge(ifi.Block(), 1-sn)}, func(in ssa.Instruction) searchAction {
+					if call, ok := isStaticCall(in, "net/http.Error"); ok && is500(call) {
+						return stopPath
+					}
+					if r, ok := in.(*ssa.Return); ok && r.Parent() == fn {
+						skips, where = true, r
+					}
+					return cont
+				})
+			}
+			if edges == 0 {
+				continue // the shape obligations above report a missing test
+			}
+			pos := P.ipos(which.at)
+			if where != nil {
+				pos = P.ipos(where)
+			}
+			c.check(!skips, name+":"+which.label+"-error-always-500", pos, "every path on which the error is non-nil answers 500 before returning", "a path returns without answering 500 although the "+which.label+" error is non-nil (an empty 200 is sent instead)")
+		}
 	}
 	// no http.Error elsewhere
 	for _, he := range httpErrs {
@@ -485,13 +544,17 @@ func r16_4(c *Ctx) {
 		if !inSSEPackage(f) || f.Synthetic != "" {
 			continue
 		}
-		eachInstrDeep(f, func(in ssa.Instruction) {
+		eachInstr(f, func(in ssa.Instruction) {
 			if call, ok := in.(*ssa.Call); ok && call.Call.StaticCallee() == nil && !call.Call.IsInvoke() {
 				if _, ok := isFieldLoad(call.Call.Value, "Server", "OnSession"); ok {
 					fn = f
 				}
 			}
 		})
+	}
+	// the call may sit in an inlined helper: the function that builds the subscription is the one around it
+	for fn != nil && iifeSiteCached(fn) != nil {
+		fn = iifeSiteCached(fn).Parent()
 	}
 	if fn == nil {
 		c.anchor("the OnSession call")
@@ -523,6 +586,11 @@ func r16_4(c *Ctx) {
 	name := fnLabel(fn)
 	var clientOK, idOK, defOK bool
 	var topicsStores []*ssa.Store
+	// every Subscription value assembled here (there may be more than one literal) names the session and
+	// carries its LastEventID
+	type built struct{ client, id, any bool }
+	lits := map[ssa.Value]*built{}
+	var litOrder []ssa.Value
 	eachInstrDeep(fn, func(in ssa.Instruction) {
 		st, ok := in.(*ssa.Store)
 		if !ok {
@@ -535,14 +603,76 @@ func r16_4(c *Ctx) {
 		if o, _, _, _ := fieldSel(st.Addr); o != "Subscription" {
 			return
 		}
+		base, _ := isFieldSel(st.Addr, "Subscription", n)
+		bl := lits[base]
+		if bl == nil {
+			bl = &built{}
+			lits[base] = bl
+			litOrder = append(litOrder, base)
+		}
 		switch n {
 		case "Client":
 			clientOK = carriesOnly(stripConv(st.Val), sess)
+			bl.client = clientOK
 		case "LastEventID":
 			b, ok := isFieldLoad(st.Val, "Session", "LastEventID")
 			idOK = ok && carriesOnly(b, sess)
+			bl.id = idOK
 		case "Topics":
 			topicsStores = append(topicsStores, st)
+		}
+		if n == "Client" || n == "LastEventID" {
+			bl.any = true
+		}
+	})
+	for _, base := range litOrder {
+		if bl := lits[base]; bl.any && !(bl.client && bl.id) {
+			clientOK, idOK = clientOK && bl.client, idOK && bl.id
+		}
+	}
+	// a literal assigned over the subscription in place (`sub = Subscription{...}` compiles to a zeroing
+	// store followed by the literal's field stores) must be complete as well
+	eachInstrDeep(fn, func(in ssa.Instruction) {
+		st, ok := in.(*ssa.Store)
+		if !ok || lits[st.Addr] == nil {
+			return
+		}
+		if _, isK := st.Val.(*ssa.Const); !isK {
+			return
+		}
+		cl, id := false, false
+		after := false
+		for _, x := range st.Block().Instrs {
+			if x == ssa.Instruction(st) {
+				after = true
+				continue
+			}
+			fs, ok := x.(*ssa.Store)
+			if !after || !ok {
+				continue
+			}
+			if b, ok := isFieldSel(fs.Addr, "Subscription", "Client"); ok && b == st.Addr {
+				cl = carriesOnly(stripConv(fs.Val), sess)
+			}
+			if b, ok := isFieldSel(fs.Addr, "Subscription", "LastEventID"); ok && b == st.Addr {
+				lb, ok := isFieldLoad(fs.Val, "Session", "LastEventID")
+				id = ok && carriesOnly(lb, sess)
+			}
+		}
+		clientOK, idOK = clientOK && cl, idOK && id
+	})
+	// a literal that is stored whole over the subscription must be complete as well
+	eachInstrDeep(fn, func(in ssa.Instruction) {
+		st, ok := in.(*ssa.Store)
+		if !ok || !typeIs(st.Val.Type(), "sse", "Subscription") {
+			return
+		}
+		if ld, ok := st.Val.(*ssa.UnOp); ok && ld.Op == token.MUL {
+			if bl := lits[ld.X]; bl == nil || !bl.client || !bl.id {
+				if _, isAlloc := ld.X.(*ssa.Alloc); isAlloc {
+					clientOK, idOK = clientOK && bl != nil && bl.client, idOK && bl != nil && bl.id
+				}
+			}
 		}
 	})
 	c.check(clientOK, name+":client", P.pos(fn.Pos()), "Client is the session", "Subscription.Client is not the session being served")
@@ -565,6 +695,81 @@ func r16_4(c *Ctx) {
 		return ok && on != nil && e.Index == 1 && e.Tuple == ssa.Value(on)
 	}
 	topOK := on != nil
+	// form (C): the topics and the verdict both come out of one helper (inlined by the pre-pass as an
+	// immediately-invoked literal with two results): decided path-wise inside it
+	if g, ti, vi := topicsVerdictHelper(fn, topicsStores, merged); g != nil && on != nil {
+		isDefault := func(v ssa.Value) bool {
+			if a, ok := loadedFrom(v); ok {
+				if gl, ok := a.(*ssa.Global); ok {
+					if iv, ok := globalStringSliceInit(P, gl); ok && len(iv) == 1 && iv[0] == defaultTopicConst(P) {
+						return true
+					}
+				}
+			}
+			return false
+		}
+		isLenTopics := func(v ssa.Value) bool {
+			call, ok := v.(*ssa.Call)
+			if !ok {
+				return false
+			}
+			b, ok := call.Call.Value.(*ssa.Builtin)
+			return ok && b.Name() == "len" && onTopics(call.Call.Args[0])
+		}
+		isOnLoad := func(v ssa.Value) bool { _, ok := isFieldLoad(v, "Server", "OnSession"); return ok }
+		paths, okP := abstractPaths(g, 4096, nil)
+		if !okP {
+			c.undecided(name+":onsession-topics", P.pos(g.Pos()), "too many paths through the topics helper")
+			return
+		}
+		defWhy, topWhy, retWhy := "", "", ""
+		defSeen := false
+		for _, p := range paths {
+			if p.Ret == nil || len(p.Ret.Results) <= ti || len(p.Ret.Results) <= vi {
+				continue
+			}
+			T, V := p.St.resolve(p.Ret.Results[ti]), p.St.resolve(p.Ret.Results[vi])
+			okTrue := pathEstablishes(p.St, factBool(onOK, true))
+			okFalse := pathEstablishes(p.St, factBool(onOK, false))
+			lenPos := pathEstablishes(p.St, factInt(isLenTopics, 0, 1, posInf))
+			lenZero := pathEstablishes(p.St, factInt(isLenTopics, 0, 0, 0))
+			nilOn := pathEstablishes(p.St, factNil(isOnLoad, true))
+			switch {
+			case onTopics(T):
+				if !(okTrue && lenPos) {
+					topWhy = "OnSession's topics are used on a path that did not establish allowed && len(topics) > 0"
+				}
+			case isDefault(T):
+				defSeen = true
+				if !(nilOn || okFalse || lenZero) {
+					topWhy = "the default topics are used although OnSession allowed the session and may have chosen topics"
+				}
+			default:
+				defWhy = "a path yields topics that are neither OnSession's nor []string{DefaultTopic}"
+			}
+			if b, isC := constBool(V); isC {
+				if (b && !(nilOn || okTrue)) || (!b && !okFalse) {
+					retWhy = "a constant verdict is returned on a path that did not establish it"
+				}
+			} else if !onOK(V) {
+				retWhy = "the verdict is not OnSession's"
+			}
+		}
+		if !defSeen && defWhy == "" {
+			defWhy = "no path yields the default topics"
+		}
+		c.check(defWhy == "", name+":default-topics", P.pos(fn.Pos()), "Topics default to the slice holding DefaultTopic (helper form)", "the default Topics are not []string{DefaultTopic}: "+defWhy)
+		c.check(topWhy == "", name+":onsession-topics", P.pos(fn.Pos()), "OnSession's topics are used exactly when allowed and non-empty (helper form)", "OnSession's topics are not installed exactly when allowed && len(topics) > 0: "+topWhy)
+		c.check(retWhy == "", name+":allowed", P.pos(fn.Pos()), "the session is accepted iff OnSession is nil or allows it (helper form)", "getSubscription's verdict is not OnSession's: "+retWhy)
+		a := on.Call.Args
+		good := len(a) == 2 && isResOf(a[0], sess)
+		if good {
+			b, ok := isFieldLoad(a[1], "Session", "Req")
+			good = ok && carriesOnly(b, sess)
+		}
+		c.check(good, name+":onsession-args", P.ipos(on), "OnSession(sess.Res, sess.Req)", "OnSession is not given the session's writer and request")
+		return
+	}
 	for _, st := range topicsStores {
 		if a, ok := loadedFrom(st.Val); ok {
 			if g, ok := a.(*ssa.Global); ok {
@@ -733,6 +938,130 @@ func r16_5(c *Ctx) {
 		}
 	}
 	c.check(stOK, name+":session-id", P.pos(fn.Pos()), "Session.LastEventID is the unset value or NewID's result", "Session.LastEventID is built without validation")
+	// ... and the unset value is used only where the header was found absent or empty
+	if stOK {
+		isLenHdr := func(v ssa.Value) bool {
+			call, ok := v.(*ssa.Call)
+			if !ok {
+				return false
+			}
+			b, ok := call.Call.Value.(*ssa.Builtin)
+			return ok && b.Name() == "len" && hdrVals != nil && call.Call.Args[0] == hdrVals
+		}
+		isHdrValue := func(v ssa.Value) bool {
+			if hdrVals != nil {
+				if a, ok := loadedFrom(v); ok {
+					if ia, ok := a.(*ssa.IndexAddr); ok && ia.X == hdrVals {
+						k, isK := constInt(ia.Index)
+						return isK && k == 0
+					}
+				}
+				return false
+			}
+			_, ok := isStaticCall(v, "(net/http.Header).Get")
+			return ok
+		}
+		absentOn := func(p absPath) bool {
+			if pathEstablishes(p.St, factInt(isLenHdr, 0, 0, 0)) {
+				return true
+			}
+			for e := range p.St.Edges {
+				if len(e.From.Instrs) == 0 {
+					continue
+				}
+				ifi, isIf := e.From.Instrs[len(e.From.Instrs)-1].(*ssa.If)
+				if !isIf {
+					continue
+				}
+				cnd := decodeIf(ifi)
+				if cnd.Y == nil {
+					continue
+				}
+				x, y := cnd.X, cnd.Y
+				if _, isK := constString(x); isK {
+					x, y = y, x
+				}
+				if k, isK := constString(y); isK && k == "" && isHdrValue(p.St.resolve(x)) {
+					if (cnd.Op == token.EQL && e.Idx == cnd.succWhen(true)) || (cnd.Op == token.NEQ && e.Idx == cnd.succWhen(false)) {
+						return true
+					}
+				}
+			}
+			return false
+		}
+		isParsed := func(v ssa.Value) bool {
+			e, ok := v.(*ssa.Extract)
+			return ok && e.Tuple == ssa.Value(nid)
+		}
+		dropped, undecidedWhy := "", ""
+		// decide(f, valueOf): on every path of f the value is NewID's result, or the path found the header
+		// absent/empty; a value produced by an inlined helper is decided inside the helper
+		var decide func(f *ssa.Function, valueOf func(p absPath) (ssa.Value, bool), depth int)
+		decide = func(f *ssa.Function, valueOf func(p absPath) (ssa.Value, bool), depth int) {
+			paths, okP := abstractPaths(f, 4096, nil)
+			if !okP || depth > 2 {
+				undecidedWhy = "too many paths"
+				return
+			}
+			for _, p := range paths {
+				v, ok := valueOf(p)
+				if !ok || p.Ret == nil {
+					continue
+				}
+				v = p.St.resolve(v)
+				if isParsed(v) {
+					continue
+				}
+				if a, ok := loadedFrom(v); ok {
+					// a cell: the last store to it on this path
+					fromParse, seen := false, false
+					for _, in := range p.Instrs {
+						if s2, ok := in.(*ssa.Store); ok && s2.Addr == a {
+							seen = true
+							fromParse = isParsed(p.St.resolve(s2.Val))
+						}
+					}
+					if seen && fromParse {
+						continue
+					}
+				}
+				if call, ok := v.(*ssa.Call); ok {
+					if g := iifeCallee(call); g != nil && g.Signature.Results().Len() == 1 {
+						decide(g, func(q absPath) (ssa.Value, bool) {
+							if q.Ret == nil || len(q.Ret.Results) != 1 {
+								return nil, false
+							}
+							return q.Ret.Results[0], true
+						}, depth+1)
+						continue
+					}
+				}
+				if !absentOn(p) {
+					dropped = P.ipos(p.Ret)
+				}
+			}
+		}
+		decide(fn, func(p absPath) (ssa.Value, bool) {
+			var st *ssa.Store
+			for _, in := range p.Instrs {
+				if s2, ok := in.(*ssa.Store); ok {
+					if _, ok := isFieldSel(s2.Addr, "Session", "LastEventID"); ok {
+						st = s2
+					}
+				}
+			}
+			if st == nil {
+				return nil, false
+			}
+			return st.Val, true
+		}, 0)
+		if undecidedWhy != "" {
+			c.undecided(name+":used-when-present", P.pos(fn.Pos()), undecidedWhy)
+		} else {
+			c.check(dropped == "", name+":used-when-present", P.pos(fn.Pos()), "the session gets the unset ID only where the header was found absent or empty", "a request that carries a non-empty Last-Event-Id can be given the unset ID (path to "+dropped+" without an absent/empty test): the client's resume position is ignored")
+		}
+	}
+
 	// Res = getResponseWriter(w) non-nil
 	var grw *ssa.Call
 	eachInstrDeep(fn, func(in ssa.Instruction) {
@@ -746,6 +1075,23 @@ func r16_5(c *Ctx) {
 			for _, s := range sources(ret.Results[1]) {
 				if isGlobalLoad(s, "ErrUpgradeUnsupported") && guardedByNil(fn, ret.Block(), func(v ssa.Value) bool { return v == ssa.Value(grw) }, true) {
 					good = true
+				}
+				// (writer, found) form: found == false exactly when the writer is nil
+				if isGlobalLoad(s, "ErrUpgradeUnsupported") && grw.Call.StaticCallee() != nil && grw.Call.StaticCallee().Signature.Results().Len() == 2 {
+					paired := true
+					for _, gr := range returnsOf(grw.Call.StaticCallee()) {
+						if len(gr.Results) != 2 {
+							paired = false
+							continue
+						}
+						fv, isC := constBool(gr.Results[1])
+						if !isC || fv == isNilConst(gr.Results[0]) {
+							paired = false
+						}
+					}
+					if paired && guardedByBool(fn, ret.Block(), func(v ssa.Value) bool { return carriesExtract(v, grw, 1) }, false) {
+						good = true
+					}
 				}
 			}
 		}
@@ -796,6 +1142,49 @@ func r16_6(c *Ctx) {
 		fe, f, u := tas[idx["FlushError"]-1], tas[idx["Flush"]-1], tas[idx["Unwrap"]-1]
 		order = instrDominates(fe, f) && instrDominates(f, u) && len(loopsContaining(fn, u.Block())) == 1
 	}
+	// the Unwrap case always goes round the loop again with the unwrapped writer
+	if order {
+		u := tas[idx["Unwrap"]-1]
+		var hdr *ssa.BasicBlock
+		if ls := loopsContaining(fn, u.Block()); len(ls) == 1 {
+			hdr = ls[0].Head
+		}
+		escapes, edges := false, 0
+		var where ssa.Instruction
+		for _, ifi := range ifsIn(fn) {
+			s, ok := boolEdge(ifi, func(v ssa.Value) bool {
+				e, ok := v.(*ssa.Extract)
+				return ok && e.Index == 1 && e.Tuple == ssa.Value(u)
+			})
+			if !ok || hdr == nil {
+				continue
+			}
+			edges++
+			forward([]startPoint{atEdge(ifi.Block(), s)}, func(in ssa.Instruction) searchAction {
+				if in.Block() == hdr {
+					return stopPath
+				}
+				if r, ok := in.(*ssa.Return); ok {
+					escapes, where = true, r
+				}
+				return cont
+			})
+		}
+		// and the next round looks at Unwrap()'s result
+		feeds := false
+		for _, ta := range tas {
+			for _, sv := range sources(ta.X) {
+				if call, ok := sv.(*ssa.Call); ok && call.Call.IsInvoke() && call.Call.Method.Name() == "Unwrap" {
+					feeds = true
+				}
+			}
+		}
+		pos := P.pos(fn.Pos())
+		if where != nil {
+			pos = P.ipos(where)
+		}
+		c.check(edges > 0 && !escapes && feeds, name+":unwrap-continues", pos, "a writer that only unwraps is always examined again (any nesting depth)", "the Unwrap case can return instead of examining the unwrapped writer: a flusher behind several wrappers is not found")
+	}
 	c.check(order, name+":switch-order", P.pos(fn.Pos()), "FlushError is preferred over Flush, which is preferred over Unwrap; inside a loop", "the type switch does not test FlushError, then Flush, then Unwrap inside a loop: flush errors are lost or wrapped writers are not unwrapped")
 	// default nil
 	nilRet := false
@@ -815,7 +1204,15 @@ func r16_6(c *Ctx) {
 				good = true
 			}
 		}
-		c.check(good, fnLabel(f), P.pos(f.Pos()), "returns FlushError()'s result", "the error-returning wrapper drops the flush error")
+		// ... whatever it is: no return substitutes nil (or another error) for it
+		for _, ret := range returnsOf(f) {
+			for _, sv := range sources(ret.Results[0]) {
+				if call, ok := sv.(*ssa.Call); !ok || !call.Call.IsInvoke() || call.Call.Method.Name() != "FlushError" {
+					good = false
+				}
+			}
+		}
+		c.check(good, fnLabel(f), P.pos(f.Pos()), "returns FlushError()'s result on every path", "the error-returning wrapper drops or replaces the flush error on some path (e.g. reports success for http.ErrNotSupported): a writer that cannot flush looks healthy and ServeHTTP answers 200 instead of 500")
 	} else {
 		c.anchor("(flusherErrorWrapper).Flush")
 	}
@@ -891,7 +1288,7 @@ func r05_1(c *Ctx) {
 			continue
 		}
 		// DefaultValidator: compares contentType(...) with a constant
-		eachInstrDeep(fn, func(in ssa.Instruction) {
+		eachInstr(fn, func(in ssa.Instruction) {
 			b, ok := in.(*ssa.BinOp)
 			if !ok || (b.Op != token.NEQ && b.Op != token.EQL) {
 				return
@@ -906,7 +1303,7 @@ func r05_1(c *Ctx) {
 			if !inSSEPackage(fn) {
 				continue
 			}
-			eachInstrDeep(fn, func(in ssa.Instruction) {
+			eachInstr(fn, func(in ssa.Instruction) {
 				b, ok := in.(*ssa.BinOp)
 				if !ok || (b.Op != token.NEQ && b.Op != token.EQL) {
 					return
@@ -932,7 +1329,7 @@ func r05_1(c *Ctx) {
 	if cn != nil {
 		acc := false
 		eachInstrDeep(cn, func(in ssa.Instruction) {
-			if call, ok := isStaticCall(in, "(net/http.Header).Set"); ok {
+			if call, ok := isStaticCall(in, "(net/http.Header).Set", "(net/http.Header).Add"); ok {
 				k, _ := constString(call.Call.Args[1])
 				v, _ := constString(call.Call.Args[2])
 				if textproto.CanonicalMIMEHeaderKey(k) == "Accept" && v == expected {
@@ -1076,17 +1473,36 @@ func r20_1(c *Ctx) {
 				}
 				// applied whenever a limit or buffer is configured: the only bypass is buf == nil && max <= 0
 				blocked := map[cfgEdge]bool{}
-				for _, ifi := range ifsIn(af) {
-					if s, ok := nilEdge(ifi, func(v ssa.Value) bool { _, ok := isFieldLoad(v, "Connection", "buf"); return ok }); ok {
-						_ = s
+				through := func(v ssa.Value, field string) bool {
+					if _, ok := isFieldLoad(v, "Connection", field); ok {
+						return true
 					}
-					// paths on which bufMaxSize <= 0 was established are not "a maximum is configured"
-					if lo, hi, okE, ok := intEdgeSets(ifi, func(v ssa.Value) bool { _, ok := isFieldLoad(v, "Connection", "bufMaxSize"); return ok }, negInf); ok {
+					src := sources(v)
+					if len(src) == 0 {
+						return false
+					}
+					for _, sv := range src {
+						if _, ok := isFieldLoad(sv, "Connection", field); !ok {
+							return false
+						}
+					}
+					return true
+				}
+				isBufV := func(v ssa.Value) bool { return through(v, "buf") }
+				isMaxV := func(v ssa.Value) bool { return through(v, "bufMaxSize") }
+				for _, ifi := range ifsIn(af) {
+					// nothing is configured - and the parser may keep its defaults - only where BOTH no buffer
+					// (buf == nil) and no maximum (bufMaxSize <= 0) were established: Buffer(buf, 0) configures the
+					// limit through the buffer's capacity
+					if lo, hi, okE, ok := intEdgeSets(ifi, isMaxV, negInf); ok {
 						for e := 0; e < 2; e++ {
-							if okE[e] && hi[e] <= 0 && lo[e] <= hi[e] {
+							if okE[e] && hi[e] <= 0 && lo[e] <= hi[e] && factGuards(af, ifi.Block(), factNil(isBufV, true)) {
 								blocked[cfgEdge{ifi.Block(), e}] = true
 							}
 						}
+					}
+					if sn, ok := nilEdge(ifi, isBufV); ok && factGuards(af, ifi.Block(), factInt(isMaxV, negInf, negInf, 0)) {
+						blocked[cfgEdge{ifi.Block(), sn}] = true
 					}
 				}
 				skip := false
@@ -1217,7 +1633,7 @@ func r20_3(c *Ctx) {
 			continue
 		}
 		sl, ok := ret.Results[1].(*ssa.Slice)
-		good := ok && sl.X == ssa.Value(data) && sl.High != nil && sl.High == ret.Results[0] && sl.Max == nil
+		good := ok && (sl.X == ssa.Value(data) || carriesOnly(sl.X, data)) && sl.High != nil && (sl.High == ret.Results[0] || sameValue(sl.High, ret.Results[0])) && sl.Max == nil
 		c.check(good, fnLabel(fn)+":token-slice#"+itoa(i), P.ipos(ret), "token = data[start:advance] and advance is what is consumed", "the returned token is not data[start:advance] with the same advance that is reported as consumed: bytes are skipped or delivered twice")
 		if k, isK := constInt(ret.Results[2]); !isNilConst(ret.Results[2]) || isK {
 			_ = k
@@ -1329,6 +1745,37 @@ func init() {
 	add("C05", "R08.5/R08.6/R09.8 are claimed here too: a wrong replay start position at the resume boundary duplicates or loses an event across a reconnect.", "R08.5", "R08.6", "R09.8")
 	add("C02", "R01.8 is claimed here too: go-sse's own decoder must strip exactly the one space the encoder writes after the colon.", "R01.8")
 	add("C15", "R01.8 is claimed here too: the round trip goes through scanSegment/trimFirstSpace.", "R01.8")
+	add("C02", "R01.13 is claimed here too: go-sse's own reader must rebuild Data as the LF-join of the data lines, leading empty lines included.", "R01.13")
+	add("C06", "R17.1 is claimed here too: Subscribe returns the subscriber's own Send/Flush error only if the value handed to it is that error.", "R17.1")
+	add("C04", "R18.2/R18.3 are claimed here too: a resize that loses or reorders buffered events breaks resumption.", "R18.3")
+	add("C06", "R17.3 is claimed here too: \"Joe does not panic\" when a replayer panics rests on the recover handler, which must itself be free of operations that can panic on the recovered value.", "R17.3")
+	add("C02", "R01.3/R01.4 are claimed here too: \"interpreted … by go-sse's own [parser] as exactly one event per message … Type and ID are the ones set\" rests on the interpreter dispatching every event and resetting the type between events.", "R01.3", "R01.4")
+	add("C06", "R08.3/R08.7/R09.7/R09.9 are claimed here too: \"Subscribe returns the subscriber's own … replay error\" rests on Replay returning the Send error it met.", "R08.3", "R08.7", "R09.7", "R09.9")
+	add("C05", "R03.1/R06.4 are claimed here too: \"the server process survives every such cut\" rests on the handler's writer never being used after Subscribe returned (no second goroutine, no deferred unsubscription).", "R03.1", "R06.4")
+	add("C10", "R11.2 is claimed here too: its reset-failure obligations are exactly \"a body that cannot be re-obtained ends Connect with an error\".", "R11.2")
+	add("C18", "R18.7 is claimed here too: a read index that jumps while the ring is not full leaves occupied slots that dequeue never visits (their messages stay reachable).", "R18.7")
+	add("C15", "R14.4 is claimed here too: the text round trip presupposes single-line ID and type values (a value ending in a line break encodes to a field line followed by a blank line).", "R14.4")
+	add("C19", "R08.2 is claimed here too: \"every publication gets its own ID\" rests on the 64-bit counter and its single increment.", "R08.2")
+	add("C16", "R16.7 the Server's exported wrappers: init() installs s.Provider, or a fresh Joe only when that is nil, exactly once; Shutdown and Publish call init() and then the provider's method on every path, with their own arguments (Publish with the topics or the default slice), and return its result; ServeHTTP calls init() before it subscribes.", "R16.7")
+	add("C07", "R16.7 is claimed here too: Server.Shutdown must reach the provider's Shutdown on every path, also on a server that has not been used yet (otherwise the shutdown is forgotten and the next use creates a live provider).", "R16.7")
+	add("C05", "R16.7 is claimed here too: Server.Publish forwards the message with its topics (or the default topic) to the provider the sessions are subscribed to.", "R16.7")
+	add("C20", "R20.5 the http.Response body obtained by the client is handed only to Connection.read (the bounded parser) and closed; nothing else reads it (a drain-before-close reads an endless stream without bound and keeps Connect from returning).", "R20.5")
+	add("C11", "R20.5 is claimed here too: \"returns at once without retrying when the response validator … fails\" and the retry after a lost connection require that leaving doConnect does not read the rest of a live stream.", "R20.5")
+	add("C04", "R08.3/R08.4/R09.7/R09.1 are claimed here too: \"receives every later event … exactly once and in publish order\" rests on the replay iteration visiting exactly the occupied slots after the presented one and skipping (not stopping at) expired entries.", "R08.3", "R08.4", "R09.7", "R09.1")
+	add("C06", "R08.4/R03.1 are claimed here too: a replay that goes on after a failed Send keeps using the failed writer and loses its error; subscriber bookkeeping touched from another goroutine than the loop's releases Subscribe calls while Joe still uses their writers.", "R08.4", "R03.1")
+	add("C14", "R16.5 is claimed here too: the Last-Event-Id header reaches the session only through NewID, whose failure leaves the ID unset (no panic, no unvalidated value).", "R16.5")
+	add("C01", "R20.4 is claimed here too: an event that is complete in the buffer is delivered without waiting for further bytes (\"however its bytes are split across reads\").", "R20.4")
+	add("C20", "R01.6 is claimed here too: \"Read and Connection never panic\" includes the optional retry callback, which sse.Read leaves nil.", "R01.6")
+	add("C13", "R10.1 is claimed here too: its dispatch-unconditional obligation is what brings every event to the callbacks subscribed at that moment.", "R10.1")
+	add("C04", "R09.4 is claimed here too: an unexpired buffered event must not be overwritten by the Put that follows (the ring grows first), or a resume misses it.", "R09.4")
+	add("C05", "R08.4 is claimed here too: the replay on reconnect visits exactly the occupied slots after the presented one.", "R08.4")
+	add("C06", "R04.3 is claimed here too: a subscription taken from the channel is either registered (so that shutdown or unsubscription releases it) or answered at once; otherwise its Subscribe call never returns.", "R04.3")
+	add("C07", "R04.3 is claimed here too (every pending Subscribe returns after Shutdown only if every accepted subscription was registered).", "R04.3")
+	add("C17", "R03.3/R03.8 are claimed here too: \"all other subscribers still receive that message\" - once - rests on the fan-out visiting every subscriber exactly once per message whatever happens to one of them.", "R03.3", "R03.8")
+	add("C08", "R19.2 is claimed here too: the stored copies must not be rewritten through a shared chunk array.", "R19.2")
+	add("C09", "R19.2/R18.3 are claimed here too: stored copies are not rewritten through a shared chunk array, and a resize copies the live range into a fresh buffer (compacting in place overwrites unexpired events).", "R19.2", "R18.3")
+	add("C05", "R08.3/R09.7 are claimed here too: the replay on reconnect starts at the index found for the presented ID, which must not be made stale by a collection in between.", "R08.3", "R09.7")
+	add("C13", "R01.3/R01.4 are claimed here too: routing by type presupposes that the interpreter gives every event its own type (reset at dispatch) and dispatches every event that has one.", "R01.3", "R01.4")
 }
 
 // scanPosEdges classifies the branch edges of the split function that compare a scan-derived position
@@ -1368,6 +1815,14 @@ func scanPosEdges(fn *ssa.Function, data ssa.Value) (atEnd, notAtEnd map[cfgEdge
 					if _, ok := isModCall(call, "parser.NewlineIndex"); ok {
 						found = true
 					}
+					// a result of an inlined helper that contains the scan loop
+					if g := iifeCallee(call); g != nil {
+						for _, r := range returnsOf(g) {
+							if x.Index < len(r.Results) {
+								walk(r.Results[x.Index])
+							}
+						}
+					}
 				}
 			}
 		}
@@ -1389,6 +1844,36 @@ func scanPosEdges(fn *ssa.Function, data ssa.Value) (atEnd, notAtEnd map[cfgEdge
 		}
 		if !derives(pos) {
 			continue
+		}
+		// a position that was moved again after the scan loop finished (the consumed line break of a found
+		// event boundary) no longer says where the scan stopped
+		adjusted := false
+		{
+			seen := map[ssa.Value]bool{}
+			var walk func(v ssa.Value)
+			walk = func(v ssa.Value) {
+				if seen[v] || adjusted {
+					return
+				}
+				seen[v] = true
+				switch x := v.(type) {
+				case *ssa.Phi:
+					if len(loopsContaining(fn, x.Block())) == 0 {
+						for _, e := range x.Edges {
+							walk(e)
+						}
+					}
+				case *ssa.BinOp:
+					if len(loopsContaining(x.Parent(), x.Block())) == 0 && x.Parent() == fn {
+						for _, l := range loopsOf(fn) {
+							if l.Head.Dominates(x.Block()) {
+								adjusted = true
+							}
+						}
+					}
+				}
+			}
+			walk(pos)
 		}
 		var endE, notE = -1, -1
 		switch op {
@@ -1412,7 +1897,7 @@ func scanPosEdges(fn *ssa.Function, data ssa.Value) (atEnd, notAtEnd map[cfgEdge
 			}
 			return true
 		}
-		if counts(endE) {
+		if counts(endE) && !adjusted {
 			atEnd[cfgEdge{b, endE}] = true
 		}
 		if counts(notE) {
@@ -1420,4 +1905,439 @@ func scanPosEdges(fn *ssa.Function, data ssa.Value) (atEnd, notAtEnd map[cfgEdge
 		}
 	}
 	return
+}
+
+// carriesExtract: v is result idx of call, or a local (also a captured one) that only ever holds it.
+func carriesExtract(v ssa.Value, call *ssa.Call, idx int) bool {
+	is := func(x ssa.Value) bool {
+		e, ok := x.(*ssa.Extract)
+		return ok && call != nil && e.Index == idx && e.Tuple == ssa.Value(call)
+	}
+	if is(v) {
+		return true
+	}
+	src := sources(v)
+	for _, sv := range src {
+		if !is(sv) {
+			return false
+		}
+	}
+	return len(src) > 0
+}
+
+// topicsVerdictHelper: the single Topics store takes result ti, and every two-result return of fn takes
+// result vi, of one immediately-invoked literal g.
+func topicsVerdictHelper(fn *ssa.Function, topicsStores []*ssa.Store, merged bool) (g *ssa.Function, ti, vi int) {
+	if len(topicsStores) != 1 || merged {
+		return nil, 0, 0
+	}
+	e, ok := topicsStores[0].Val.(*ssa.Extract)
+	if !ok {
+		return nil, 0, 0
+	}
+	call, ok := e.Tuple.(*ssa.Call)
+	if !ok {
+		return nil, 0, 0
+	}
+	g = iifeCallee(call)
+	if g == nil {
+		return nil, 0, 0
+	}
+	vi = -1
+	for _, ret := range returnsOf(fn) {
+		if len(ret.Results) < 2 {
+			continue
+		}
+		ve, ok := ret.Results[1].(*ssa.Extract)
+		if !ok || ve.Tuple != ssa.Value(call) || (vi >= 0 && vi != ve.Index) {
+			return nil, 0, 0
+		}
+		vi = ve.Index
+	}
+	if vi < 0 {
+		return nil, 0, 0
+	}
+	return g, e.Index, vi
+}
+
+// ---------------------------------------------------------------------------
+// R16.7: the exported wrappers of Server
+
+func r16_7(c *Ctx) {
+	P := c.P
+	// anchored by role: the sync.Once.Do call on Server.initDone, wherever it is written
+	isDo := func(in ssa.Instruction) (*ssa.Call, bool) {
+		call, ok := isStaticCall(in, "(*sync.Once).Do")
+		if !ok || len(call.Call.Args) != 2 {
+			return nil, false
+		}
+		if _, ok := isFieldSel(call.Call.Args[0], "Server", "initDone"); !ok {
+			return nil, false
+		}
+		return call, true
+	}
+	var containsDo func(f *ssa.Function, depth int) bool
+	containsDo = func(f *ssa.Function, depth int) bool {
+		if f == nil || f.Blocks == nil || depth > 2 {
+			return false
+		}
+		found := false
+		eachInstr(f, func(in ssa.Instruction) {
+			if found {
+				return
+			}
+			if _, ok := isDo(in); ok {
+				found = true
+				return
+			}
+			if call, ok := in.(*ssa.Call); ok {
+				callee := call.Call.StaticCallee()
+				if callee == nil {
+					callee = iifeCallee(call)
+				}
+				if callee != nil && inSSEPackage(callee) && containsDo(callee, depth+1) {
+					found = true
+				}
+			}
+		})
+		return found
+	}
+	// an instruction of fn that performs the initialisation: the Do call itself, or a call of a function doing it
+	isInitPoint := func(in ssa.Instruction) bool {
+		if _, ok := isDo(in); ok {
+			return true
+		}
+		call, ok := in.(*ssa.Call)
+		if !ok {
+			return false
+		}
+		callee := call.Call.StaticCallee()
+		if callee == nil {
+			callee = iifeCallee(call)
+		}
+		return callee != nil && inSSEPackage(callee) && containsDo(callee, 0)
+	}
+	var do *ssa.Call
+	var doFn *ssa.Function
+	var dos []*ssa.Call // an inlined initialiser appears once per caller
+	for _, f := range P.Funcs {
+		if !inSSEPackage(f) {
+			continue
+		}
+		f := f
+		eachInstr(f, func(in ssa.Instruction) {
+			if call, ok := isDo(in); ok {
+				dos = append(dos, call)
+				if do == nil {
+					do, doFn = call, f
+				}
+			}
+		})
+	}
+	if do == nil {
+		c.anchor("sync.Once.Do on Server.initDone")
+		return
+	}
+	// the callback(s): a function literal or a bound method
+	inInit := map[*ssa.Function]bool{}
+	for _, d := range dos {
+		var cbFn *ssa.Function
+		for _, sv := range append(sources(d.Call.Args[1]), d.Call.Args[1]) {
+			if mc, ok := sv.(*ssa.MakeClosure); ok {
+				if g, ok := mc.Fn.(*ssa.Function); ok {
+					cbFn = g
+					if t := boundMethodTarget(g); t != nil {
+						cbFn = t
+					}
+				}
+			}
+		}
+		if cbFn == nil {
+			c.undecided(fnLabel(doFn)+":provider", P.ipos(d), "the Once callback is not a function literal or a method value")
+			return
+		}
+		inInit[cbFn] = true
+	}
+	{
+		name := "Server.initDone.Do:provider"
+		var collect func(f *ssa.Function)
+		collect = func(f *ssa.Function) {
+			for _, a := range f.AnonFuncs {
+				inInit[a] = true
+				collect(a)
+			}
+		}
+		for f := range inInit {
+			collect(f)
+		}
+		good, fromField, freshJoe := true, false, false
+		why := ""
+		for _, a := range P.fieldAccesses("Server", "provider") {
+			if a.Kind != "write" {
+				continue
+			}
+			st := a.Use.(*ssa.Store)
+			if !inInit[a.Fn] {
+				good, why = false, "Server.provider is written outside the Once callback at "+P.ipos(st)
+				continue
+			}
+			for _, sv := range append(sources(st.Val), st.Val) {
+				sv = stripConv(sv)
+				if _, ok := isFieldLoad(sv, "Server", "Provider"); ok {
+					fromField = true
+				}
+				if al, ok := sv.(*ssa.Alloc); ok && typeIs(al.Type(), "sse", "Joe") {
+					// only where the configured provider turned out to be nil
+					isProv := func(v ssa.Value) bool {
+						if _, ok := isFieldLoad(v, "Server", "provider"); ok {
+							return true
+						}
+						_, ok := isFieldLoad(v, "Server", "Provider")
+						return ok
+					}
+					guarded := factGuards(a.Fn, st.Block(), factNil(isProv, true))
+					if !guarded {
+						// chosen in a local first: the edge on which the fresh Joe reaches the merge is the nil edge
+						eachInstr(a.Fn, func(in ssa.Instruction) {
+							phi, ok := in.(*ssa.Phi)
+							if !ok {
+								return
+							}
+							for i, e := range phi.Edges {
+								if stripConv(e) == ssa.Value(al) {
+									pr := phi.Block().Preds[i]
+									if predEstablishes(pr, phi.Block(), factNil(isProv, true), a.Fn) || factGuards(a.Fn, pr, factNil(isProv, true)) {
+										guarded = true
+									}
+								}
+							}
+						})
+					}
+					if guarded {
+						freshJoe = true
+					} else {
+						good, why = false, "the default Joe replaces the provider without a nil test"
+					}
+				}
+			}
+		}
+		if good && !(fromField && freshJoe) {
+			good, why = false, "the Once callback does not (take s.Provider, fall back to a fresh Joe)"
+		}
+		c.check(good, name, P.ipos(do), "provider := s.Provider, or a fresh Joe when that is nil, once", "the server's provider is not initialised as documented ("+why+")")
+	}
+	isProviderVal := func(v ssa.Value) bool {
+		src := append(sources(v), v)
+		okAny := false
+		for _, sv := range src {
+			if _, ok := isFieldLoad(sv, "Server", "provider"); ok {
+				okAny = true
+			}
+		}
+		return okAny
+	}
+	// forwarders
+	for _, spec := range []struct {
+		fn, method string
+	}{{"(*Server).Shutdown", "Shutdown"}, {"(*Server).Publish", "Publish"}} {
+		fn := P.Fn(spec.fn)
+		if fn == nil {
+			c.anchor(spec.fn)
+			continue
+		}
+		name := fnLabel(fn)
+		var fwd ssa.CallInstruction
+		eachInstrDeep(fn, func(in ssa.Instruction) {
+			if ci, ok := isInvoke(in, "sse", "Provider", spec.method); ok {
+				fwd = ci
+			}
+		})
+		if fwd == nil {
+			c.bad(name+":forwards", P.pos(fn.Pos()), spec.fn+" never calls the provider's "+spec.method)
+			continue
+		}
+		// every path: the initialisation, then the provider call; the result is returned
+		good, why := true, ""
+		var initCall ssa.Instruction
+		eachInstr(fn, func(in ssa.Instruction) {
+			if isInitPoint(in) && initCall == nil {
+				initCall = in
+			}
+		})
+		lf, _ := liftInstr(fwd, fn)
+		if initCall == nil || lf == nil || !(instrDominates(initCall, lf) || initCall == lf) {
+			good, why = false, "the provider is not initialised (Once.Do) before the call"
+		}
+		for _, ret := range returnsOf(fn) {
+			if lf != nil && reachesAvoiding(entryPoint(fn), ret, func(in ssa.Instruction) bool { return in == lf }, nil) {
+				good, why = false, "a path returns without calling the provider's "+spec.method+" ("+P.ipos(ret)+")"
+			}
+			for _, sv := range sources(ret.Results[0]) {
+				if sv != fwd.Value() {
+					good, why = false, "the provider's result is not what is returned"
+				}
+			}
+		}
+		if !isProviderVal(fwd.Common().Value) {
+			good, why = false, "the call does not go to s.provider"
+		}
+		args := fwd.Common().Args
+		switch spec.method {
+		case "Shutdown":
+			if len(args) != 1 || !carriesOnly(args[0], fn.Params[1]) {
+				good, why = false, "the caller's context is not passed on"
+			}
+		case "Publish":
+			okArgs := len(args) == 2 && carriesOnly(args[0], fn.Params[1])
+			if okArgs {
+				okT := false
+				if call, isC := args[1].(*ssa.Call); isC && len(call.Call.Args) == 1 && carriesOnly(call.Call.Args[0], fn.Params[2]) {
+					if callee := call.Call.StaticCallee(); callee != nil && isTopicsDefaulter(P, callee) {
+						okT = true
+					}
+				}
+				okArgs = okT
+			}
+			if !okArgs {
+				good, why = false, "the message and the topics (or the default topic when none are given) are not passed on"
+			}
+		}
+		c.check(good, name+":forwards", P.ipos(fwd), "initialise, then s.provider."+spec.method+" with the caller's arguments on every path; its result is returned", spec.fn+" does not forward to the provider on every path ("+why+")")
+	}
+	// ServeHTTP initialises before it subscribes
+	if fn := P.Fn("(*Server).ServeHTTP"); fn != nil {
+		var sub ssa.CallInstruction
+		var initCall ssa.Instruction
+		eachInstrDeep(fn, func(in ssa.Instruction) {
+			if ci, ok := isInvoke(in, "sse", "Provider", "Subscribe"); ok {
+				sub = ci
+			}
+		})
+		eachInstr(fn, func(in ssa.Instruction) {
+			if isInitPoint(in) && initCall == nil {
+				initCall = in
+			}
+		})
+		if sub != nil {
+			ls, _ := liftInstr(sub, fn)
+			c.check(initCall != nil && ls != nil && instrDominates(initCall, ls), fnLabel(fn)+":init-first", P.ipos(sub), "the provider is initialised before the subscription", "ServeHTTP subscribes without having initialised the provider")
+		}
+	} else {
+		c.anchor("(*Server).ServeHTTP")
+	}
+}
+
+// ---------------------------------------------------------------------------
+// R20.5: who may read the response body
+
+func r20_5(c *Ctx) {
+	P := c.P
+	n := 0
+	for _, f := range P.Funcs {
+		if !inSSEPackage(f) || f.Synthetic != "" {
+			continue
+		}
+		eachInstr(f, func(in ssa.Instruction) {
+			v, ok := in.(ssa.Value)
+			if !ok {
+				return
+			}
+			if _, isBody := isFieldLoad(v, "http.Response", "Body"); !isBody {
+				return
+			}
+			n++
+			// follow the value through interface conversions, phis and cells to its uses
+			seen := map[ssa.Value]bool{}
+			var bad ssa.Instruction
+			what := ""
+			var follow func(x ssa.Value)
+			follow = func(x ssa.Value) {
+				if seen[x] || bad != nil {
+					return
+				}
+				seen[x] = true
+				refs := x.Referrers()
+				if refs == nil {
+					return
+				}
+				for _, r := range *refs {
+					switch u := r.(type) {
+					case *ssa.ChangeInterface:
+						follow(u)
+					case *ssa.MakeInterface:
+						follow(u)
+					case *ssa.Phi:
+						follow(u)
+					case *ssa.Store:
+						if u.Val == x {
+							// a local or captured cell: its loads
+							if al, ok := cellRoot(u.Addr).(*ssa.Alloc); ok {
+								for _, rr := range *al.Referrers() {
+									if ld, ok := rr.(*ssa.UnOp); ok && ld.Op == token.MUL {
+										follow(ld)
+									}
+								}
+							} else {
+								bad, what = u, "stored where the analysis cannot follow it"
+							}
+						}
+					case *ssa.MakeClosure:
+						// captured by a function literal: the free variable's uses
+						if g, ok := u.Fn.(*ssa.Function); ok {
+							for i, b := range u.Bindings {
+								if b == x && i < len(g.FreeVars) {
+									follow(g.FreeVars[i])
+								}
+							}
+						}
+					case ssa.CallInstruction:
+						cc := u.Common()
+						if cc.IsInvoke() && cc.Value == x {
+							if cc.Method.Name() != "Close" {
+								bad, what = u, "its "+cc.Method.Name()+" method is called directly"
+							}
+							continue
+						}
+						if callee := cc.StaticCallee(); callee != nil {
+							nm := callee.String()
+							if nm == expandName("(*Connection).read") {
+								continue
+							}
+							if g := iifeCallee0(u); g != nil {
+								// an inlined helper: follow the parameter that receives the body
+								for i, a := range cc.Args {
+									if a == x && i < len(g.Params) {
+										follow(g.Params[i])
+									}
+								}
+								continue
+							}
+							bad, what = u, "it is passed to "+nm
+							continue
+						}
+						bad, what = u, "it is passed to a dynamic call"
+					case *ssa.DebugRef, *ssa.BinOp, *ssa.If:
+					case *ssa.UnOp:
+					default:
+					}
+				}
+			}
+			follow(v)
+			pos := P.ipos(in)
+			if bad != nil {
+				pos = P.ipos(bad)
+			}
+			c.check(bad == nil, fnLabel(f)+":body-use", pos, "the response body is only handed to Connection.read and closed", "the response body is read outside the bounded parser ("+what+"): on a stream that never ends this reads without bound and keeps Connect from returning or retrying")
+		})
+	}
+	if n == 0 {
+		c.anchor("a load of http.Response.Body in the client")
+	}
+}
+
+func iifeCallee0(ci ssa.CallInstruction) *ssa.Function {
+	if call, ok := ci.(*ssa.Call); ok {
+		return iifeCallee(call)
+	}
+	return nil
 }
